@@ -1,3 +1,5 @@
+//go:build mcbuild
+
 // C14: parallel.MapIterator / parallel.MapStream. Engine E2.
 package main
 
